@@ -265,12 +265,6 @@ func diffRows(got, want []string) string {
 		len(want), len(got), clip(fmt.Sprintf("%q", missing), 1500), clip(fmt.Sprintf("%q", extra), 1500))
 }
 
-func sortedEq(t *rapid.T, what string, got, want []string) {
-	if d := diffRows(got, want); d != "" {
-		t.Fatalf("%s %s", what, d)
-	}
-}
-
 // caught runs f and returns the panic of the code under test as text ("" = none); harness errors pass through.
 func caught(f func()) (msg string) {
 	defer func() {
@@ -283,13 +277,6 @@ func caught(f func()) (msg string) {
 	}()
 	f()
 	return ""
-}
-
-// guard runs f and turns a panic of the code under test into a property violation with the iterator's name.
-func guard(t *rapid.T, what string, f func()) {
-	if msg := caught(f); msg != "" {
-		t.Fatalf("%s panicked while reading back stored keys: %s", what, msg)
-	}
 }
 
 func valueFor(kind string, tr triple) []byte {
